@@ -511,3 +511,9 @@ def _dom_bynum(tier, seed):
             return b
         yield dict(call=call, args=[], ghost=dict(x=x, nperbin=nperbin, mergelast=mergelast, kw=kw),
                    key="n=%d nperbin=%d merge=%s %r" % (len(x), nperbin, mergelast, kw))
+
+        # the same request through the public wrapper (its own forwarding of the options)
+        def call2(x=x, nperbin=nperbin, mergelast=mergelast, kw=kw):
+            return st.histogram(x, nperbin=nperbin, mergelast=mergelast, more=True, rev=True, **kw)
+        yield dict(call=call2, args=[], ghost=dict(x=x, nperbin=nperbin, mergelast=mergelast, kw=kw),
+                   key="histogram() n=%d nperbin=%d merge=%s %r" % (len(x), nperbin, mergelast, kw))
